@@ -104,6 +104,7 @@ type Agent struct {
 	socks5Srv     *socks5.Server
 	exitHandler   *exit.Handler
 	exitHandlerMu sync.Mutex // Guards on-demand exit handler creation
+	routeManageMu sync.Mutex // Serializes dynamic route add/remove (route table and exit allow-list change together)
 	healthServer  *health.Server
 	sleepMgr      *sleep.Manager    // Sleep mode manager (nil if not enabled)
 	sealedBox     *crypto.SealedBox // Management key encryption (nil if not configured)
@@ -1359,6 +1360,14 @@ func (a *Agent) ensureExitHandler() *exit.Handler {
 
 // ManageRoute handles dynamic route management (add/remove/list).
 func (a *Agent) ManageRoute(action, network string, metric uint16) (*health.RouteManageResult, error) {
+	// Add and remove each update the route table and the exit allow-list; run
+	// them one at a time so that concurrent requests cannot leave the two out
+	// of step (e.g. an allow-list entry for a route that was already removed).
+	if action == "add" || action == "remove" {
+		a.routeManageMu.Lock()
+		defer a.routeManageMu.Unlock()
+	}
+
 	switch action {
 	case "add":
 		_, ipNet, err := net.ParseCIDR(network)
